@@ -281,9 +281,9 @@ Proof.
     apply Hlo; [repeat split|apply same_refl].
 Qed.
 
-Lemma sched_step_o cfg cfg' : GInv cfg -> sched_step cfg = Some cfg' -> GInv cfg'.
+Lemma sched_step0_o cfg cfg' : GInv cfg -> sched_step0 cfg = Some cfg' -> GInv cfg'.
 Proof.
-  intros HE. unfold sched_step. destruct (dead cfg); [discriminate|].
+  intros HE. unfold sched_step0. destruct (dead cfg); [discriminate|].
   destruct (next_from_schedule cfg (sched cfg)) as [pick rest].
   assert (HE1 : GInv (mkCfg (shs cfg) (ths cfg) rest false)) by exact HE.
   set (cfg1 := mkCfg (shs cfg) (ths cfg) rest false) in *.
@@ -303,6 +303,34 @@ Proof.
       destruct (th_enabled cfg2 w); intros E; injection E as <-; [apply perform_o|]; exact HE2.
     + destruct (all_finished cfg1); [discriminate|]. intros E. injection E as <-.
       destruct HE1 as [HG HF]. split; [|exact HF]. cbn [shs ths]. eapply OI_eq; [|exact HG]. repeat split.
+Qed.
+
+Lemma unnotified_o cfg tok c : GInv cfg -> unnotified cfg tok = Some c -> GInv c.
+Proof.
+  intros [HG HF] H. unfold unnotified in H.
+  destruct (Nat.leb 2000 tok).
+  - destruct (nth_error (ths cfg) (tok - 2000)) as [wt|] eqn:EN; [|discriminate].
+    destruct (status wt) as [|timed| |] eqn:Est; try discriminate. injection H as <-. unfold GInv. cbn [shs ths]. split.
+    + eapply OI_at; [exact EN|apply same_to|exact HG].
+    + intros u x Hu. rewrite (nth_set_o _ _ _ _ _ EN) in Hu. destruct (Nat.eqb u (tok - 2000)) eqn:E; [|apply HF; exact Hu].
+      apply Nat.eqb_eq in E. subst u. injection Hu as <-.
+      pose proof (HF _ wt EN) as HW. unfold th_ok in *. cbn [status code lo]. rewrite Est in HW. apply HW.
+  - destruct (Nat.leb 1000 tok); [|discriminate].
+    destruct (nth_error (ths cfg) (tok - 1000)) as [wt|] eqn:EN; [|discriminate].
+    destruct (status wt) as [|timed| |] eqn:Est; try discriminate. destruct timed; [|discriminate]. injection H as <-. unfold GInv. cbn [shs ths]. split.
+    + eapply OI_eq; [|eapply OI_at; [exact EN|apply same_to|exact HG]]. repeat split.
+    + intros u x Hu. rewrite (nth_set_o _ _ _ _ _ EN) in Hu. destruct (Nat.eqb u (tok - 1000)) eqn:E; [|apply HF; exact Hu].
+      apply Nat.eqb_eq in E. subst u. injection Hu as <-.
+      pose proof (HF _ wt EN) as HW. unfold th_ok in *. cbn [status code lo]. rewrite Est in HW. apply HW.
+Qed.
+
+Lemma sched_step_o cfg cfg' : GInv cfg -> sched_step cfg = Some cfg' -> GInv cfg'.
+Proof.
+  intros HE. unfold sched_step. destruct (dead cfg) eqn:Ed; [discriminate|].
+  assert (H0 : sched_step0 cfg = Some cfg' -> GInv cfg') by (apply sched_step0_o; exact HE).
+  destruct (sched cfg) as [|tok rest]; [exact H0|].
+  destruct (unnotified _ tok) as [c|] eqn:EU; [|exact H0].
+  intros E. injection E as <-. eapply unnotified_o; [|exact EU]. exact HE.
 Qed.
 
 Lemma run_sched_o fuel : forall cfg, GInv cfg -> GInv (run_sched fuel cfg).
